@@ -30,27 +30,144 @@ func unliteralize(filename string, src []byte) ([]byte, int) {
 		return src, 0
 	}
 	n := 0
+	// labels of earlier rounds come along when the code that carries them is itself inlined (possibly twice into one
+	// function): every dvFold label is given a fresh number, innermost first, together with the breaks that target it
+	relabelled := 0
+	seenLabel := map[string]bool{}
+	astutil.Apply(f, nil, func(c *astutil.Cursor) bool {
+		ls, ok := c.Node().(*ast.LabeledStmt)
+		if !ok || len(ls.Label.Name) < 6 || ls.Label.Name[:6] != "dvFold" {
+			return true
+		}
+		old := ls.Label.Name
+		if !seenLabel[old] {
+			seenLabel[old] = true
+			return true
+		}
+		unlitCounter++
+		fresh := fmt.Sprintf("dvFold%d", unlitCounter)
+		ls.Label.Name = fresh
+		ast.Inspect(ls.Stmt, func(n ast.Node) bool {
+			if br, ok := n.(*ast.BranchStmt); ok && br.Label != nil && br.Label.Name == old {
+				br.Label.Name = fresh
+			}
+			return true
+		})
+		relabelled++
+		return true
+	})
 	// the IIFE of a statement, if the statement has one of the supported shapes: the call is the whole expression
 	// (modulo parentheses and !) of an expression statement, of the single right-hand side of an assignment, of the
 	// single result of a return, or of the condition of an if without init statement. slot is where it sits.
-	find := func(e *ast.Expr) (**ast.CallExpr, *ast.Expr) {
-		for {
-			switch x := (*e).(type) {
-			case *ast.ParenExpr:
-				e = &x.X
-				continue
+	// simple: evaluating the expression has no effect and reads nothing a literal's body could change in between
+	// (identifiers, literals, pkg.Name / x.method selectors used as the function of a call)
+	isIIFE := func(e ast.Expr) bool {
+		call, ok := e.(*ast.CallExpr)
+		if !ok || len(call.Args) != 0 || call.Ellipsis.IsValid() {
+			return false
+		}
+		_, ok = ast.Unparen(call.Fun).(*ast.FuncLit)
+		return ok
+	}
+	// callFree: only reads (variables, fields, elements, arithmetic): the language leaves the order of such reads
+	// relative to calls in the same statement unspecified, so moving a literal's body before them stays within it
+	callFree := func(e ast.Expr) bool {
+		ok := true
+		ast.Inspect(e, func(n ast.Node) bool {
+			switch x := n.(type) {
+			case *ast.CallExpr, *ast.FuncLit:
+				ok = false
 			case *ast.UnaryExpr:
-				if x.Op == token.NOT {
-					e = &x.X
-					continue
+				if x.Op == token.ARROW {
+					ok = false
 				}
 			}
-			break
+			return ok
+		})
+		return ok
+	}
+	var first func(e *ast.Expr) (slot *ast.Expr, simple bool)
+	first = func(e *ast.Expr) (*ast.Expr, bool) {
+		if callFree(*e) {
+			return nil, true
 		}
-		if call, ok := (*e).(*ast.CallExpr); ok {
-			return &call, e
+		switch x := (*e).(type) {
+		case *ast.Ident, *ast.BasicLit:
+			return nil, true
+		case *ast.ParenExpr:
+			return first(&x.X)
+		case *ast.UnaryExpr:
+			if x.Op == token.ARROW {
+				return nil, false
+			}
+			if x.Op == token.AND {
+				if _, isLit := x.X.(*ast.CompositeLit); !isLit {
+					return nil, false
+				}
+				s, _ := first(&x.X)
+				return s, false
+			}
+			return first(&x.X)
+		case *ast.CompositeLit:
+			// the elements are evaluated in order
+			for i := range x.Elts {
+				el := &x.Elts[i]
+				if kv, isKV := (*el).(*ast.KeyValueExpr); isKV {
+					if _, isID := kv.Key.(*ast.Ident); !isID {
+						return nil, false
+					}
+					el = &kv.Value
+				}
+				s, simple := first(el)
+				if s != nil || !simple {
+					return s, false
+				}
+			}
+			return nil, false
+		case *ast.SelectorExpr:
+			if _, isID := x.X.(*ast.Ident); isID {
+				return nil, false // a field read: not hoisted over, but fine as the function of a call (below)
+			}
+			s, _ := first(&x.X)
+			return s, false
+		case *ast.BinaryExpr:
+			s, simple := first(&x.X)
+			if s != nil || !simple || x.Op == token.LAND || x.Op == token.LOR {
+				return s, false
+			}
+			s, simple = first(&x.Y)
+			return s, simple
+		case *ast.CallExpr:
+			if isIIFE(x) {
+				return e, false
+			}
+			switch fn := x.Fun.(type) {
+			case *ast.Ident:
+			case *ast.SelectorExpr:
+				if _, isID := fn.X.(*ast.Ident); !isID {
+					s, _ := first(&fn.X)
+					return s, false
+				}
+			default:
+				return nil, false
+			}
+			for i := range x.Args {
+				s, simple := first(&x.Args[i])
+				if s != nil || !simple {
+					return s, false
+				}
+			}
+			return nil, false
 		}
-		return nil, nil
+		return nil, false
+	}
+	find := func(e *ast.Expr) (**ast.CallExpr, *ast.Expr) {
+		slot, _ := first(e)
+		if slot == nil {
+			return nil, nil
+		}
+		call := (*slot).(*ast.CallExpr)
+		return &call, slot
 	}
 	iifeSlot := func(s ast.Stmt) (*ast.CallExpr, *ast.FuncLit, *ast.Expr) {
 		var e *ast.Expr
@@ -58,7 +175,19 @@ func unliteralize(filename string, src []byte) ([]byte, int) {
 		case *ast.ExprStmt:
 			e = &x.X
 		case *ast.AssignStmt:
-			if len(x.Rhs) == 1 {
+			lhsSimple := true
+			for _, l := range x.Lhs {
+				switch y := l.(type) {
+				case *ast.Ident:
+				case *ast.SelectorExpr:
+					if _, isID := y.X.(*ast.Ident); !isID {
+						lhsSimple = false
+					}
+				default:
+					lhsSimple = false
+				}
+			}
+			if len(x.Rhs) == 1 && (lhsSimple || isIIFE(x.Rhs[0])) {
 				e = &x.Rhs[0]
 			}
 		case *ast.ReturnStmt:
@@ -69,6 +198,12 @@ func unliteralize(filename string, src []byte) ([]byte, int) {
 			if x.Init == nil {
 				e = &x.Cond
 			}
+		case *ast.SwitchStmt:
+			if x.Init == nil && x.Tag != nil {
+				e = &x.Tag
+			}
+		case *ast.RangeStmt:
+			e = &x.X
 		}
 		if e == nil {
 			return nil, nil, nil
@@ -197,6 +332,12 @@ func unliteralize(filename string, src []byte) ([]byte, int) {
 		case *ast.IfStmt:
 			*slot = results[0]
 			return x
+		case *ast.SwitchStmt:
+			*slot = results[0]
+			return x
+		case *ast.RangeStmt:
+			*slot = results[0]
+			return x
 		}
 		return s
 	}
@@ -252,7 +393,7 @@ func unliteralize(filename string, src []byte) ([]byte, int) {
 				return true
 			}
 		}
-		if as, isAssign := st.(*ast.AssignStmt); isAssign {
+		if as, isAssign := st.(*ast.AssignStmt); isAssign && len(as.Rhs) == 1 && isIIFE(as.Rhs[0]) {
 			nres := 0
 			if lit.Type.Results != nil {
 				nres = len(lit.Type.Results.List)
@@ -287,7 +428,7 @@ func unliteralize(filename string, src []byte) ([]byte, int) {
 		n++
 		return true
 	}, nil)
-	if n == 0 {
+	if n == 0 && relabelled == 0 {
 		return src, 0
 	}
 	var buf bytes.Buffer
